@@ -396,6 +396,29 @@ def r5_precheck_first(ctx, res):
     if 'lmf.dump(resource, destination)' not in src or "'lexicons': [_export_lexicon(lex, _version) for lex in lexicons]" not in src:
         res.find(key, f.module.loc(f.node), 'export() no longer builds one resource from all lexicons and writes it with lmf.dump')
     pc = ctx.repo.func('_export', '_precheck')
+    # identifiers that take part in the clash test must be NOT NULL columns (a nullable id yields None for every lexicon
+    # that omits it, and two such lexicons would "clash" on None)
+    from .c01 import SELECT_LISTS
+    for n in walk_no_nested(pc.node):
+        if isinstance(n, ast.Call) and isinstance(n.func, ast.Attribute) and n.func.attr in ('update', 'add') \
+                and norm(n.func.value) == 'idset' and n.args and isinstance(n.args[0], ast.GeneratorExp):
+            g = n.args[0]
+            q = g.generators[0].iter
+            if isinstance(q, ast.Call) and isinstance(g.elt, ast.Subscript) and isinstance(g.elt.slice, ast.Constant):
+                cal = ctx.cg.resolve_call(pc, q)
+                qn = cal[0].name if len(cal) == 1 else None
+                cols = {'find_entries': ['entries.id']}.get(qn) or SELECT_LISTS.get(qn)
+                key = f'precheck-id-column:{qn}'
+                col = cols[g.elt.slice.value] if cols and g.elt.slice.value < len(cols) else None
+                res.inst(key, pc.module.loc(n), f'{col}')
+                ok = False
+                if col and '.' in col:
+                    t, c = col.split('.', 1)
+                    sc = ctx.schema.col(t, c) if t in ctx.schema.tables else None
+                    ok = sc is not None and sc.notnull and c == 'id'
+                if not ok:
+                    res.find(key, pc.module.loc(n), f'_precheck collects `{norm(g.elt)}` of {qn} ({col}) as an identifier: that column is not a '
+                                                    f'NOT NULL id, so lexicons that simply omit it (None) are refused as having clashing identifiers')
     key = 'precheck-raises'
     res.inst(key, pc.module.loc(pc.node), 'raises wn.Error on clashing identifiers')
     s2 = Frag(pc.node)
@@ -469,11 +492,18 @@ def _reaches(ctx, f, call, target, via=None, depth=0):
     return False
 
 
+def r7_no_shared_records(ctx, res):
+    """the exported records do not share mutable objects between entries / senses / synsets."""
+    from ..sharing import report
+    report(ctx, res, {'_export'}, 'export')
+
+
 RULES = [
     ('C03-R1', r1_coverage, 75),
     ('C03-R2', r2_guard_consistency, 3),
     ('C03-R3', r3_metadata_provenance, 9),
     ('C03-R4', r4_scoping, 12),
-    ('C03-R5', r5_precheck_first, 3),
+    ('C03-R5', r5_precheck_first, 6),
     ('C03-R6', r6_proposed_ili_marker, 3),
+    ('C03-R7', r7_no_shared_records, 6),
 ]
